@@ -350,6 +350,63 @@ fn find_reindex_ids() {
     println!("NO-WITNESS find_reindex_ids");
 }
 
+/// clauses StoreFor::{resolve_id, get, has} (C03): on stores of 4 annotations / 3 resources / 2 datasets with every single
+/// removal, every string of a pool (public ids, ids of removed items, temporary ids of every kind and number, malformed
+/// temporary ids, the empty string) looks up exactly the one live item that carries it - or, for a temporary id of the
+/// right kind, the live item in that slot - and nothing otherwise; never a panic
+#[test]
+fn find_id_lookups() {
+    let pool: Vec<String> = {
+        let mut p: Vec<String> = vec!["".into(), "!".into(), "!A".into(), "!Ax".into(), "!A-1".into(), "!A18446744073709551616".into(), "!A4294967296".into(), "nonexistent".into(), "é!A0".into(), "!a0".into()];
+        for i in 0..4 { p.push(format!("A{}", i)); p.push(format!("R{}", i)); p.push(format!("S{}", i)); }
+        for k in ["A", "R", "S", "D", "K", "T", "I", "Z"] { for n in [0usize, 1, 2, 3, 4, 5, 999] { p.push(format!("!{}{}", k, n)); } }
+        p
+    };
+    for removal in 0..10usize {
+        let mut store = AnnotationStore::default();
+        for i in 0..3 { store = store.with_resource(TextResourceBuilder::new().with_id(format!("R{}", i)).with_text("hello world")).unwrap(); }
+        for i in 0..2 { store = store.with_dataset(AnnotationDataSetBuilder::new().with_id(format!("S{}", i))).unwrap(); }
+        for i in 0..4usize {
+            store.annotate(AnnotationBuilder::new().with_id(format!("A{}", i))
+                .with_target(SelectorBuilder::textselector(format!("R{}", i % 3), Offset::simple(i, i + 1)))
+                .with_data(format!("S{}", i % 2), "k", "v")).unwrap();
+        }
+        // model: slot -> Some(id) when live
+        let mut ann: Vec<Option<String>> = (0..4).map(|i| Some(format!("A{}", i))).collect();
+        let mut res: Vec<Option<String>> = (0..3).map(|i| Some(format!("R{}", i))).collect();
+        let mut set: Vec<Option<String>> = (0..2).map(|i| Some(format!("S{}", i))).collect();
+        let what = match removal {
+            0 => "nothing removed".to_string(),
+            1..=4 => { let i = removal - 1; store.remove_annotation(format!("A{}", i).as_str()).unwrap(); ann[i] = None; format!("remove_annotation(A{})", i) }
+            5..=7 => { let i = removal - 5; store.remove_resource(format!("R{}", i).as_str()).unwrap(); res[i] = None;
+                       for a in 0..4 { if a % 3 == i { ann[a] = None; } } format!("remove_resource(R{})", i) }
+            _ => { let i = removal - 8; store.remove_dataset(format!("S{}", i).as_str()).unwrap(); set[i] = None;
+                   for a in 0..4 { if a % 2 == i { ann[a] = None; } } format!("remove_dataset(S{})", i) }
+        };
+        let want = |slots: &Vec<Option<String>>, letter: &str, s: &str| -> Option<usize> {
+            if let Some(rest) = s.strip_prefix(&format!("!{}", letter)) {
+                if let Ok(n) = rest.parse::<usize>() { if n < slots.len() && slots[n].is_some() { return Some(n); } }
+            }
+            slots.iter().position(|x| x.as_deref() == Some(s))
+        };
+        for s in &pool {
+            let s = s.as_str();
+            let got = std::panic::catch_unwind(std::panic::AssertUnwindSafe(|| (
+                store.resolve_annotation_id(s).ok().map(|h| h.as_usize()), store.annotation(s).map(|a| a.handle().as_usize()),
+                store.resolve_resource_id(s).ok().map(|h| h.as_usize()), store.resource(s).map(|a| a.handle().as_usize()),
+                store.resolve_dataset_id(s).ok().map(|h| h.as_usize()), store.dataset(s).map(|a| a.handle().as_usize()))));
+            let got = match got { Ok(g) => g, Err(_) => { println!("WITNESS {{\"clause\":\"resolve_id/no_panic\",\"history\":{:?},\"lookup\":{:?},\"got\":\"panic\"}}", what, s); return; } };
+            let (wa, wr, ws) = (want(&ann, "A", s), want(&res, "R", s), want(&set, "S", s));
+            let report = |api: &str, got: Option<usize>, want: Option<usize>| -> bool {
+                if got != want { println!("WITNESS {{\"clause\":\"resolve_id/ok_iff\",\"history\":{:?},\"api\":{:?},\"lookup\":{:?},\"got\":\"{:?}\",\"want\":\"{:?} (the live item that carries the identifier, or the live item in the slot a temporary identifier of this kind names)\"}}", what, api, s, got, want); true } else { false }
+            };
+            if report("resolve_annotation_id", got.0, wa) || report("annotation", got.1, wa) || report("resolve_resource_id", got.2, wr)
+                || report("resource", got.3, wr) || report("resolve_dataset_id", got.4, ws) || report("dataset", got.5, ws) { return; }
+        }
+    }
+    println!("NO-WITNESS find_id_lookups");
+}
+
 // ------------------------------------------------------------------------------------------------------------------
 // strip_annotation_ids / strip_data_ids (C03): afterwards no public id resolves, no stripped item carries an id, every item is
 // still found by handle (and by its temporary id), and items of other kinds keep their ids.
